@@ -22,11 +22,64 @@ def p1_pop_must_use(prog):
     for f in prog.fns.values():
         if f.kind == 'Closure':
             continue
-        if not any(True for g in [f] + f.closures() for _ in g.body.calls(lambda c: c['path'] in POP)):
+        has_drain = any(True for g in [f] + f.closures() for _ in g.body.calls(lambda c: c['name'] == 'drain' and 'VecDeque' in c['path']))
+        if not any(True for g in [f] + f.closures() for _ in g.body.calls(lambda c: c['path'] in POP)) and not has_drain:
             continue
         E = pathsem.analyse(prog, f)
         pops_seen = 0
         rep = set()
+        if has_drain and not E.truncated:
+            # the same obligation for indices taken off the free list in bulk: `free.drain(..n)` removes n of them, so
+            # all n must be consumed - zipped with an iterator that has at least n elements left (n is the smaller of
+            # the two lengths) - and each must select a slot that is activated
+            S = pathsem.strip_refs
+
+            def norm(t):
+                t = S(t)
+                while isinstance(t, tuple) and t and t[0] in ('r', 'd'):
+                    t = S(t[1])
+                if isinstance(t, tuple) and t and t[0] == 'L' and t[1] == 0:
+                    return ('p', t[2], f.body.local_name(t[2]) or '')
+                return t
+            for p in E.paths:
+                if p.ended != 'return':
+                    continue
+                for d in p.calls(lambda e: e['name'] == 'drain' and 'VecDeque' in e['path'] and pathsem.is_field_of(e['vals'][0], 'entity::allocator::Allocator', free_i)):
+                    pops_seen += 1
+                    dterm = d['ret']
+                    why = None
+                    zips = [z for z in p.calls(lambda z: z['name'] == 'zip' and z['i'] > d['i'] and any(pathsem.mentions(v, lambda t: t == dterm) for v in z['vals']))]
+                    cons = [c for c in p.calls(lambda c: c.get('consumer') and c['i'] > d['i'] and any(pathsem.mentions(v, lambda t: t == dterm) for v in c['vals']))]
+                    rng = S(d['vals'][1]) if len(d['vals']) > 1 else None
+                    end = None
+                    if isinstance(rng, tuple) and rng[0] == 'agg' and rng[1] in ('core::ops::RangeTo', 'core::ops::range::RangeTo'):
+                        end = S(rng[4][0])
+                    elif isinstance(rng, tuple) and rng[0] == 'agg' and rng[1] in ('core::ops::Range', 'core::ops::range::Range') and rng[4][0] == ('c', 0):
+                        end = S(rng[4][1])
+                    if not cons:
+                        why = 'the drained indices are not consumed'
+                    elif len(zips) != 1:
+                        why = 'the drained indices are not paired one to one with the locations of the batch'
+                    else:
+                        other = [v for v in zips[0]['vals'] if not pathsem.mentions(v, lambda t: t == dterm)]
+                        oroot = norm(pathsem.iter_chain(other[0])[0]) if other else None
+                        ok_end = False
+                        if isinstance(end, tuple) and end[0] == 'call' and end[1].rsplit('::', 1)[-1] == 'min' and len(end[2]) == 2:
+                            lens = [S(x) for x in end[2]]
+                            def len_of(x, pred):
+                                return isinstance(x, tuple) and x[0] == 'call' and x[1].rsplit('::', 1)[-1] == 'len' and x[2] and pred(x[2][0])
+                            is_free = lambda a_: pathsem.is_field_of(a_, 'entity::allocator::Allocator', free_i)
+                            is_other = lambda a_: oroot is not None and norm(a_) == oroot
+                            ok_end = (len_of(lens[0], is_free) and len_of(lens[1], is_other)) or (len_of(lens[1], is_free) and len_of(lens[0], is_other))
+                        if not ok_end:
+                            why = 'more indices may be drained from the free list than there are locations to pair them with (the range must end at min(free.len(), locations.len())): the surplus is neither activated nor kept'
+                        el = ('elem', dterm)
+                        acts = p.calls(lambda a_: a_['name'] in ('activate_unchecked', 'activate') and a_['i'] > cons[0]['i'] and pathsem.mentions(a_['vals'][0], lambda t: t == el))
+                        if not acts:
+                            why = why or 'a drained index does not select a slot that is activated'
+                    if why and 'd' not in rep:
+                        rep.add('d')
+                        r.viol('P1', '%s/drained-index-dropped' % f.path, f.loc(d['ln']), 'indices taken off the free list in bulk: %s' % why)
         if E.truncated:
             r.viol('P1', '%s/not-analysable' % f.path, f.loc(), 'path enumeration cut off')
             continue
@@ -465,13 +518,13 @@ def g2b_identifier_generation_after_activation(prog):
             continue
         f = cands[0]
         bodies = [f] + f.closures()
-        acts = [(b, t) for b, t in f.body.calls(lambda c: c['name'] == 'activate_unchecked')]
-        r.inst('%s: %d activation(s)' % (f.path, len(acts)))
-        if not acts:
+        n_acts = sum(len(list(g.body.calls(lambda c: c['name'] == 'activate_unchecked'))) for g in bodies)
+        r.inst('%s: %d activation(s)' % (f.path, n_acts))
+        if not n_acts:
             r.viol('G2b', name + '/no-activation', f.loc(), 'reused slots are not activated')
             continue
-        body = f.body
-        for b, t in body.calls(lambda c: c['name'] == 'new' and 'entity::identifier::Identifier' in c['path']):
+        for body, acts, b, t in [(g.body, [(b_, t_) for b_, t_ in g.body.calls(lambda c: c['name'] == 'activate_unchecked')], b, t) for g in bodies
+                                 for b, t in g.body.calls(lambda c: c['name'] == 'new' and 'entity::identifier::Identifier' in c['path'])]:
             gl = op_local(t['args'][1])
             c = op_const(t['args'][1])
             if c is not None:
